@@ -585,11 +585,33 @@ func C19(tier string) int {
 		tier = "quick"
 	}
 	o := runner.New("C19", tier, "exploration")
-	if c19LayoutErr != nil {
-		fmt.Fprintln(os.Stderr, "C19: cannot inspect math.Dec internals:", c19LayoutErr)
+	if !C19Into(tier, o, true) {
 		return 2
 	}
-	o.Assumptions = []string{
+	return o.Finish()
+}
+
+// C19Into runs the enumerator and adds its assumptions, findings and coverage to o (coverage at the top
+// level if top, else under coverage.arithmetic). It returns false if the harness cannot inspect math.Dec.
+func C19Into(tier string, o *runner.Outcome, top bool) bool {
+	if tier != "thorough" {
+		tier = "quick"
+	}
+	if c19LayoutErr != nil {
+		fmt.Fprintln(os.Stderr, "C19: cannot inspect math.Dec internals:", c19LayoutErr)
+		return false
+	}
+	cov := map[string]interface{}{}
+	defer func() {
+		if top {
+			for k, v := range cov {
+				o.Coverage[k] = v
+			}
+		} else {
+			o.Coverage["arithmetic"] = cov
+		}
+	}()
+	o.Assumptions = append(o.Assumptions, []string{
 		"every string over the alphabet {0,1,5,.,-,+,e} up to length 5 (thorough: 6) is given to the parser and the restricted constructors: the reference grammar ([sign] digits [. digits] | [sign] . digits, optional exponent) decides whether it is a decimal numeral and its value; an accepted string must be one, with exactly that value", "bounded: decimals are the literals of family D (signs x listed coefficients of 1..40 digits x listed exponents in -34..+40, in scientific and plain notation, plus unusual spellings and non-decimal strings); all ordered pairs of accepted literals are evaluated; nothing is sampled",
 		"the reference is math/big (big.Rat/big.Int) and verif/harness/ref.Parse; no function of types/math is used to compute an expected value",
 		"an error return is accepted for every operation (the statement allows 'exact result or an error'); error counts per operation are reported so that vacuous passes are visible",
@@ -599,7 +621,7 @@ func C19(tier string) int {
 		"operand immutability is judged on the internal representation (form, sign, exponent, every word of the coefficient array up to its capacity, identity of the array) and on String(), after each operation and again after Add/Mul/Reduce/BigInt/SdkIntTrim/String were applied to the returned result and returned integers were overwritten in place",
 		"math.Dec internals are read through a layout mirror of apd.Decimal verified by reflection at start-up",
 		"history independence: a probe set (14 binary operations x all ordered pairs of 25 probe literals) is evaluated at process start and must be bit-identical after each of the earlier-operation kinds (every constructor, unary operation, conversion and binary operation applied to all probe literals) and after the whole enumeration; this decides operation sequences of length two at the level of operation kinds, not longer ones",
-	}
+	}...)
 	lits := c19Literals(tier)
 	col := newC19Collector()
 
@@ -680,23 +702,23 @@ func C19(tier string) int {
 			samples = append(samples, s)
 		}
 	}
-	o.Coverage["evaluations"] = ls.Evaluations + ps.evals + as.Steps + hs.Comparisons
-	o.Coverage["distinct_nontrivial"] = ps.nontrivial
-	o.Coverage["rule"] = "family D = sign x coefficient x exponent literals in scientific and plain notation (deduplicated by spelling) plus unusual spellings; every literal is checked alone (parse value, rendering, sign predicates, BigInt, SdkIntTrim, restricted constructors); every ORDERED pair of accepted literals is evaluated under each of the 14 binary operations; an evaluation is distinct by (operation, spelling of x, spelling of y) and non-trivial iff it returned a nil error and the exact result the statement defines for it (sum, difference, product, quotient) is non-zero (QuoInteger, Rem, Cmp, Equal never count); the aliasing exploration adds every operation sequence up to the stated depth over a growing pool of values"
-	o.Coverage["samples"] = samples
-	o.Coverage["exhaustive"] = true
-	o.Coverage["literals"] = ls
-	o.Coverage["pair_literals"] = nPair
-	o.Coverage["ordered_pairs"] = int64(nPair) * int64(nPair)
-	o.Coverage["pair_evaluations"] = ps.evals
-	o.Coverage["per_operation"] = perOp
-	o.Coverage["division_by_zero_refused"] = ps.divZeroErrors
-	o.Coverage["results_sharing_memory_with_operand"] = ps.shared
-	o.Coverage["writes_into_spare_capacity_of_operand"] = ps.spareWrites
-	o.Coverage["alias_exploration"] = as
-	o.Coverage["history_independence"] = hs
-	o.Coverage["violation_counts_by_kind"] = col.counts
-	o.Coverage["workers"] = nw
+	cov["evaluations"] = ls.Evaluations + ps.evals + as.Steps + hs.Comparisons
+	cov["distinct_nontrivial"] = ps.nontrivial
+	cov["rule"] = "family D = sign x coefficient x exponent literals in scientific and plain notation (deduplicated by spelling) plus unusual spellings; every literal is checked alone (parse value, rendering, sign predicates, BigInt, SdkIntTrim, restricted constructors); every ORDERED pair of accepted literals is evaluated under each of the 14 binary operations; an evaluation is distinct by (operation, spelling of x, spelling of y) and non-trivial iff it returned a nil error and the exact result the statement defines for it (sum, difference, product, quotient) is non-zero (QuoInteger, Rem, Cmp, Equal never count); the aliasing exploration adds every operation sequence up to the stated depth over a growing pool of values"
+	cov["samples"] = samples
+	cov["exhaustive"] = true
+	cov["literals"] = ls
+	cov["pair_literals"] = nPair
+	cov["ordered_pairs"] = int64(nPair) * int64(nPair)
+	cov["pair_evaluations"] = ps.evals
+	cov["per_operation"] = perOp
+	cov["division_by_zero_refused"] = ps.divZeroErrors
+	cov["results_sharing_memory_with_operand"] = ps.shared
+	cov["writes_into_spare_capacity_of_operand"] = ps.spareWrites
+	cov["alias_exploration"] = as
+	cov["history_independence"] = hs
+	cov["violation_counts_by_kind"] = col.counts
+	cov["workers"] = nw
 
 	kinds := make([]string, 0, len(col.best))
 	for k := range col.best {
@@ -710,5 +732,5 @@ func C19(tier string) int {
 		bz, _ := json.Marshal(f.replay)
 		o.Findings = append(o.Findings, runner.Finding{Kind: k, Detail: fmt.Sprintf("%s (%d occurrences of this kind)", f.detail, col.counts[k]), Engine: "B", Where: f.where, Replay: bz})
 	}
-	return o.Finish()
+	return true
 }
